@@ -67,6 +67,17 @@ func Corpus() []*Scenario {
 		{Name: "class/leader-move", Brokers: 2, Partitions: 2, RetryMax: 2,
 			Msgs:   []MsgSpec{{ID: 1, Partition: 0}, {ID: 2, Partition: 1}, {ID: 3, Partition: 0, Wave: 1}},
 			Script: []Fault{ans(PFault{Kind: "leader-move"})}},
+		// a message blocked in waitForSpace (Flush.MaxMessages reached while the bridge is busy) when the request in
+		// flight is answered with a retriable error: it must be bounced like the buffered ones, not sent ahead
+		{Name: "class/waitforspace-retriable", Brokers: 1, Partitions: 1, RetryMax: 3, MaxMsgs: 2,
+			Msgs:   []MsgSpec{{ID: 1, Partition: 0}, {ID: 2, Partition: 0, Wave: 1}, {ID: 3, Partition: 0, Wave: 1}, {ID: 4, Partition: 0, Wave: 1}, {ID: 5, Partition: 0, Wave: 1}},
+			Script: []Fault{ans(pRetriable)},
+			Gates:  []GateSpec{{Kind: "bridge.send", Nth: 1, Partition: -1, Retries: -1}},
+			Steps:  []Step{{Op: "submit", Arg: 0}, {Op: "wait-gate", Arg: 0}, {Op: "submit", Arg: 1}, {Op: "sleep", Arg: 3}, {Op: "release", Arg: 0}}},
+		// two topics whose names and partition numbers concatenate to the same string ("t"+"10" / "t1"+"0")
+		{Name: "class/two-topics-same-concatenation", Brokers: 1, Partitions: 12, Partitions1: 2, RetryMax: 2,
+			Msgs: []MsgSpec{{ID: 1, Topic: 0, Partition: 10}, {ID: 2, Topic: 0, Partition: 10}, {ID: 3, Topic: 1, Partition: 0}, {ID: 4, Topic: 0, Partition: 11, Wave: 1},
+				{ID: 5, Topic: 1, Partition: 1, Wave: 1}, {ID: 6, Topic: 1, Partition: 0, Wave: 1}, {ID: 7, Topic: 0, Partition: 1, Wave: 1}}},
 		{Name: "class/exhausted-alone", Brokers: 1, Partitions: 1, RetryMax: 1, FlushMsgs: 2, FlushFreqMs: 300,
 			Msgs:   []MsgSpec{{ID: 1, Partition: 0}, {ID: 2, Partition: 0}, {ID: 3, Partition: 0, Wave: 1}},
 			Script: []Fault{ans(pRetriable), ans(pRetriable)},
@@ -88,14 +99,41 @@ func Gen(r *rand.Rand, name string, class int, big bool) *Scenario {
 		sc.FlushMsgs, sc.FlushFreqMs = 2+r.Intn(3), 4+r.Intn(8)
 		sc.MaxMsgs = sc.FlushMsgs + r.Intn(2)
 	}
+	twoTopics := r.Intn(5) == 0
+	if twoTopics {
+		sc.Partitions, sc.Partitions1 = 11+r.Intn(2), 1+r.Intn(2)
+	}
+	spaceWait := r.Intn(6) == 0
+	if spaceWait {
+		sc.FlushMsgs, sc.FlushFreqMs, sc.MaxMsgs = 0, 0, 2+r.Intn(2)
+	}
 	n := 3 + r.Intn(5)
 	waves := 1 + r.Intn(3)
+	if spaceWait {
+		n, waves = 5+r.Intn(4), 2
+	}
 	if big {
 		n = 10 + r.Intn(30)
 		waves = 2 + r.Intn(4)
 	}
 	for i := 0; i < n; i++ {
 		m := MsgSpec{ID: int64(i + 1), Partition: int32(r.Intn(sc.Partitions)), Wave: r.Intn(waves)}
+		if twoTopics {
+			if r.Intn(2) == 0 {
+				m.Topic, m.Partition = 1, int32(r.Intn(sc.Partitions1))
+			} else {
+				m.Partition = []int32{0, 1, 10, int32(sc.Partitions - 1)}[r.Intn(4)]
+			}
+		}
+		if spaceWait {
+			m.Wave = 1
+			if i == 0 {
+				m.Wave = 0
+			}
+			if !twoTopics && r.Intn(3) > 0 {
+				m.Partition = 0
+			}
+		}
 		if r.Intn(6) == 0 {
 			m.Pad = 10 + r.Intn(200)
 		}
@@ -116,7 +154,11 @@ func Gen(r *rand.Rand, name string, class int, big bool) *Scenario {
 			sc.Script = append(sc.Script, f)
 			continue
 		}
-		for p := 0; p < sc.Partitions; p++ {
+		nparts := sc.Partitions
+		if twoTopics {
+			nparts = 4
+		}
+		for p := 0; p < nparts; p++ {
 			pf := PFault{Kind: "none"}
 			switch x := r.Intn(10); {
 			case x < 3:
@@ -138,6 +180,15 @@ func Gen(r *rand.Rand, name string, class int, big bool) *Scenario {
 	}
 	if r.Intn(4) == 0 {
 		sc.Jitter = 1 + r.Int63n(1<<30)
+	}
+	if spaceWait {
+		// keep the bridge busy with the first set while the buffer fills up to Flush.MaxMessages
+		sc.Gates = []GateSpec{{Kind: "bridge.send", Nth: 1, Partition: -1, Retries: -1}}
+		sc.Steps = []Step{{Op: "submit", Arg: 0}, {Op: "wait-gate", Arg: 0}, {Op: "submit", Arg: 1}, {Op: "sleep", Arg: 2}, {Op: "release", Arg: 0}}
+		if len(sc.Script) == 0 || r.Intn(2) == 0 {
+			sc.Script = append([]Fault{ans(PFault{Kind: "err-before", Err: retriableCodes[r.Intn(len(retriableCodes))]})}, sc.Script...)
+		}
+		return sc
 	}
 	// steering: hold a goroutine at a point while the next wave is submitted
 	if waves > 1 && r.Intn(3) == 0 {
